@@ -133,6 +133,24 @@ CHECKS = {
         design_ref="3 C10",
         technique="CrossHair (z3) on real transforms with symbolic AST leaves; z3 floating-point / 3VL queries over emitted expressions; replay on the real stack",
     ),
+    "C18": dict(
+        category="fault_enumeration",
+        text="Kill points as symbolic variables: the real connect / execute run against a DuckDB stand-in and the process 'dies' at a symbolic "
+        "engine-call index; for every statement kind that changes state in one engine call the surviving state is the pre- or the post-state "
+        "(all-or-nothing under DuckDB's per-call durability); the database file chosen by the connect path and by the CREATE DATABASE path "
+        "agree for every name spelling and db_path form, and in-memory instances never build a path.  Multi-call statements are listed findings.",
+        design_ref="3 C18",
+        technique="CrossHair (z3) exploration of the real code with a crash injected at a symbolic engine-call index over a catalog stub",
+    ),
+    "C19": dict(
+        category="model_checking",
+        text="Rely/guarantee interference instead of threads: one commit of another fakesnow session (attach the same database with its bootstrap, "
+        "create the same schema, create/drop tables) is applied at a symbolic engine-call boundary inside the real connect() and inside "
+        "statements; the code must finish as a serial order would.  The two check-then-create windows of connect() are listed findings; "
+        "DuckDB's own thread safety and free-running stress are not claimed.",
+        design_ref="3 C19",
+        technique="CrossHair (z3) exploration of the real code with an interference effect at a symbolic call boundary over a catalog stub",
+    ),
 }
 
 NOT_YET = "not claimed yet: check not built in this round (see DESIGN.md 7 for the order of work)"
